@@ -1,8 +1,60 @@
-(* C14 property theorems.  Only statements closed by [exact]; each followed by Print Assumptions. *)
-From Miller Require Import C14.Value C14.Stack C14.Model C14.Proofs.
+(* C14 property theorems.  Only statements closed by [exact]; each followed by Print Assumptions.
+   Stated over the definitions the harness runs (C14.Model.run / run_prog on the abstract stack of C14.Stack). *)
+From Miller Require Import C14.Value C14.Stack C14.Model C14.Proofs C14.StackProofs.
 Open Scope Z_scope.
 
-(* new fields are appended while reassigned fields keep their position: the field order after [$k = v] *)
+(* ---- the pooled, recycled frames and framesets of pkg/runtime/stack.go are observationally the abstract scopes:
+   for ALL operation sequences (push/pop frame, push/pop frameset, typed define, set, set-at-scope, unset, get)
+   the concrete model and the list-of-scopes model give the same observations and related final states *)
+Theorem C14_pooled_stack_refines_abstract :
+  forall ops : list sop,
+    snd (c_run c_new ops) = snd (a_run a_new ops) /\ abs_stack (fst (c_run c_new ops)) = fst (a_run a_new ops).
+Proof. exact pooled_stack_refines_abstract. Qed.
+Print Assumptions C14_pooled_stack_refines_abstract.
+
+(* ---- block scoping on the stack the interpreter runs on *)
+(* inner `var` shadows: inside the block the inner value is read, whatever outer frames hold *)
+Theorem C14_inner_var_shadows :
+  forall x t v s s', a_define x t v (a_push_frame s) = Some s' -> a_get x s' = Some v.
+Proof. exact inner_define_shadows. Qed.
+Print Assumptions C14_inner_var_shadows.
+
+(* ... and when the block exits every outer binding is exactly as before *)
+Theorem C14_block_local_declaration_vanishes :
+  forall x t v sc fs r s', a_define x t v (a_push_frame ((sc :: fs) :: r)) = Some s' -> a_pop_frame s' = (sc :: fs) :: r.
+Proof. exact define_in_block_is_local. Qed.
+Print Assumptions C14_block_local_declaration_vanishes.
+
+(* undeclared assignment inside a block updates the nearest enclosing binding, in place, keeping its declared type *)
+Theorem C14_undeclared_assignment_updates_enclosing :
+  forall x v b sc fs r s',
+    sget x sc = Some b -> gate (b_ty b) v = true ->
+    a_set x v (a_push_frame ((sc :: fs) :: r)) = Some s' ->
+    a_pop_frame s' = (sreplace x {| b_ty := b_ty b; b_val := v |} sc :: fs) :: r.
+Proof. exact set_in_block_updates_outer. Qed.
+Print Assumptions C14_undeclared_assignment_updates_enclosing.
+
+(* ---- type declarations are enforced: at the declaration and at every later plain assignment, from any nested scope *)
+Theorem C14_type_gate_at_declaration :
+  forall x t v s s', a_define x t v s = Some s' -> gate t v = true.
+Proof. exact define_respects_gate. Qed.
+Print Assumptions C14_type_gate_at_declaration.
+
+Theorem C14_type_gate_at_assignment :
+  forall x v fs r s' t, a_set x v (fs :: r) = Some s' -> fs_type x fs = Some t -> gate t v = true.
+Proof. exact set_respects_gate. Qed.
+Print Assumptions C14_type_gate_at_assignment.
+
+(* ---- function calls get a fresh frameset: no caller variable is visible, and the caller's stack comes back intact *)
+Theorem C14_callee_sees_no_caller_locals : forall x s, a_get x (a_push_set s) = None.
+Proof. exact push_set_hides. Qed.
+Print Assumptions C14_callee_sees_no_caller_locals.
+
+Theorem C14_caller_stack_restored : forall s, s <> [] -> a_pop_set (a_push_set s) = s.
+Proof. exact pop_push_set. Qed.
+Print Assumptions C14_caller_stack_restored.
+
+(* ---- new fields are appended while reassigned fields keep their position *)
 Theorem C14_reassigned_field_keeps_position :
   forall k v r, mhas k r = true -> mkeys (mput k v r) = mkeys r.
 Proof. exact mkeys_mput_present. Qed.
@@ -12,3 +64,10 @@ Theorem C14_new_field_is_appended :
   forall k v r, mhas k r = false -> mkeys (mput k v r) = mkeys r ++ [k].
 Proof. exact mkeys_mput_absent. Qed.
 Print Assumptions C14_new_field_is_appended.
+
+(* ---- more fuel never changes a result other than OutOfFuel *)
+Theorem C14_fuel_monotone :
+  forall vr fns fuel fuel' t st r,
+    (fuel <= fuel')%nat -> run vr fns fuel t st = r -> r <> OutOfFuel -> run vr fns fuel' t st = r.
+Proof. exact fuel_monotone. Qed.
+Print Assumptions C14_fuel_monotone.
